@@ -5,9 +5,11 @@ import (
 	"context"
 	"encoding/json"
 	"fmt"
+	"github.com/ipfs/kubo/core/coreiface/options"
 	"io"
 	"math/rand"
 	"strings"
+	"sync"
 	"time"
 
 	"berty.tech/go-ipfs-log/entry"
@@ -309,6 +311,174 @@ func runC13(r *Run) error {
 			return fmt.Errorf("snapshot while writing %d: %w", k, err)
 		}
 	}
+	for k := 0; k < rounds; k++ {
+		if err := c13WhileReplicating(r, k); err != nil {
+			return fmt.Errorf("snapshot while replicating %d: %w", k, err)
+		}
+	}
+	return nil
+}
+
+// c13GateAddAPI holds SaveSnapshot back at the moment it adds the snapshot file to IPFS.
+type c13GateAddAPI struct {
+	coreiface.CoreAPI
+	reached chan struct{}
+	release chan struct{}
+	once    *sync.Once
+}
+
+func (a c13GateAddAPI) Unixfs() coreiface.UnixfsAPI { return c13GateAddUnixfs{a.CoreAPI.Unixfs(), a} }
+
+type c13GateAddUnixfs struct {
+	coreiface.UnixfsAPI
+	g c13GateAddAPI
+}
+
+func (u c13GateAddUnixfs) Add(ctx context.Context, n files.Node, opts ...options.UnixfsAddOption) (path.ImmutablePath, error) {
+	u.g.once.Do(func() { close(u.g.reached) })
+	<-u.g.release
+	return u.UnixfsAPI.Add(ctx, n, opts...)
+}
+
+// c13WhileReplicating: a snapshot saved while a replication is in progress that COMPLETES during
+// the save.  Replica 1 is announced replica 0's head and its fetch workers are parked; SaveSnapshot
+// is started and held back at the point where it adds the file; the workers are released and the
+// entries merged; then the save goes on.  Whatever was pending when the save began is, when it
+// returns, either in the saved log or in the saved queue: the reloaded store (queue resumed)
+// holds everything the store held when SaveSnapshot returned.
+func c13WhileReplicating(r *Run, k int) error {
+	ctx := context.Background()
+	typ := []string{"eventlog", "keyvalue"}[k%2]
+	s, err := NewScen(2, typ, nil)
+	if err != nil {
+		return err
+	}
+	defer func() {
+		sim.TheHooks.Reset()
+		s.Settle()
+		s.Close()
+	}()
+	for i := 0; i < 1+r.Rng.Intn(2); i++ {
+		if err := c13Write(r, s.Stores[1], fmt.Sprintf("l%d", i), 8); err != nil {
+			return err
+		}
+	}
+	n := 3 + r.Rng.Intn(4)
+	for i := 0; i < n; i++ {
+		if err := c13Write(r, s.Stores[0], fmt.Sprintf("a%d", i), 8); err != nil {
+			return err
+		}
+	}
+	st := s.Stores[1]
+	point := []string{"replicator.after_dequeue", "replicator.before_slot"}[k%2]
+	max := 1
+	if point == "replicator.before_slot" {
+		max = 0
+	}
+	gate := sim.TheHooks.Park(point, "", max)
+	if err := s.SyncFrom(1, 0); err != nil {
+		gate.Release()
+		return err
+	}
+	if !gate.WaitArrived(10 * time.Second) {
+		gate.Release()
+		return fmt.Errorf("no replicator worker arrived at %s", point)
+	}
+	c13Calm(st)
+	api := s.Reps[1].API
+	orig := api.CoreAPI
+	g := c13GateAddAPI{orig, make(chan struct{}), make(chan struct{}), &sync.Once{}}
+	api.CoreAPI = g
+	type saveRes struct {
+		out int
+		msg string
+	}
+	saved := make(chan saveRes, 1)
+	go func() {
+		out, msg, _ := c13Save(ctx, st)
+		saved <- saveRes{out, msg}
+	}()
+	var res saveRes
+	finished := false
+	select {
+	case <-g.reached:
+	case res = <-saved:
+		finished = true // (failed before it got to add anything)
+	case <-time.After(20 * time.Second):
+		close(g.release)
+		gate.Release()
+		api.CoreAPI = orig
+		return fmt.Errorf("SaveSnapshot neither returned nor reached the file addition")
+	}
+	// the replication completes while the save is held back
+	gate.Release()
+	want := s.Stores[0].OpLog().Len()
+	deadline := time.Now().Add(20 * time.Second)
+	for time.Now().Before(deadline) {
+		have := 0
+		for _, e := range s.Stores[0].OpLog().Values().Slice() {
+			if _, ok := st.OpLog().Get(e.GetHash()); ok {
+				have++
+			}
+		}
+		if have >= want {
+			break
+		}
+		time.Sleep(3 * time.Millisecond)
+	}
+	close(g.release)
+	if !finished {
+		select {
+		case res = <-saved:
+		case <-time.After(30 * time.Second):
+			api.CoreAPI = orig
+			r.AddDirect("hang:snapshot-save", "SaveSnapshot did not return", map[string]interface{}{"round": k})
+			return nil
+		}
+	}
+	api.CoreAPI = orig
+	if !s.Settle() {
+		r.AddDirect("hang:sync", "replication did not settle", map[string]interface{}{"round": k, "state": sim.LastSettleState})
+	}
+	r.Count(fmt.Sprintf("while-replicating:save=%s", c13OutcomeName[res.out]))
+	if res.out == c13Panic {
+		r.AddDirect("snapshot:while-replicating:panic", "SaveSnapshot panicked while a replication completed: "+res.msg, map[string]interface{}{"round": k, "type": typ})
+		return nil
+	}
+	if res.out != c13Ok {
+		return nil // saving failed: allowed
+	}
+	held := map[string]bool{}
+	for _, e := range st.OpLog().Values().Slice() {
+		held[e.GetHash().String()] = true
+	}
+	if err := c13Reopen(s, 1); err != nil {
+		return err
+	}
+	lo, lmsg := c13Load(ctx, s.Stores[1])
+	if !s.Settle() {
+		r.AddDirect("hang:snapshot-load", "store did not settle after LoadFromSnapshot", map[string]interface{}{"round": k, "state": sim.LastSettleState})
+	}
+	got := s.Stores[1].OpLog().Values().Slice()
+	have := map[string]bool{}
+	foreign := 0
+	for _, e := range got {
+		have[e.GetHash().String()] = true
+		if !held[e.GetHash().String()] {
+			foreign++
+		}
+	}
+	missing := 0
+	for h := range held {
+		if !have[h] {
+			missing++
+		}
+	}
+	descr := map[string]interface{}{"round": k, "type": typ, "parked_at": point, "held_when_saved": len(held), "load": c13OutcomeName[lo], "load_error": lmsg, "loaded": len(got), "missing": missing, "foreign": foreign}
+	if lo != c13Ok || missing > 0 || foreign > 0 {
+		r.AddDirect("snapshot:while-replicating:lost", "SaveSnapshot reported success while a replication completed, but the store reloaded from the snapshot (queue resumed) does not hold what the store held when the save returned", descr)
+	}
+	r.Count("while-replicating:checked")
 	return nil
 }
 
